@@ -368,7 +368,7 @@ def coq_option(x, f=lambda v: v) -> str:
     return "None" if x is None else f"(Some {f(x)})"
 
 
-def run_cases(ctx, name, header, checks, chunk=400, timeout=600):
+def _run_cases_once(ctx, name, header, checks, chunk=400, timeout=600):
     """Evaluate boolean checks inside Coq.
 
     `checks` is a list of Gallina terms of type bool; each must evaluate to true if the model
@@ -414,6 +414,24 @@ def run_cases(ctx, name, header, checks, chunk=400, timeout=600):
         if aux.exists():
             aux.unlink()
     return sorted(bad)
+
+
+def run_cases(ctx, name, header, checks, chunk=400, timeout=600):
+    """Evaluate boolean checks inside Coq (see _run_cases_once). A concurrent check may rebuild a
+    shared .vo between our build and this evaluation ("inconsistent assumptions"); in that case
+    the model targets are rebuilt under the lock and the evaluation is retried."""
+    for attempt in range(3):
+        try:
+            return _run_cases_once(ctx, name, header, checks, chunk=chunk, timeout=timeout)
+        except RuntimeError as e:
+            msg = str(e)
+            if attempt == 2 or not ("inconsistent assumptions" in msg or "not found in loadpath" in msg
+                                    or "Cannot find a physical path" in msg or "bad version" in msg):
+                raise
+            targets = list(getattr(ctx, "model_targets", []) or [])
+            with CoqLock():
+                coq_make(targets)
+            time.sleep(1 + attempt)
 
 
 def eval_terms(ctx, name, header, terms, timeout=600):
@@ -537,6 +555,7 @@ def run_property(mod, tier, seed, replay=None):
         ctx.obligations = THEOREM_RE.findall((COQ / mod.PROPS_FILE).read_text())
     broken_obligation = bool(ctx.failures)
     mt = getattr(mod, "MODEL_TARGETS", None)
+    ctx.model_targets = list(mt or [])
     if mt:
         with CoqLock():
             ok, log = coq_make(list(mt))
